@@ -49,6 +49,32 @@ impl std::fmt::Display for RecMsg<'_> {
     }
 }
 
+/// The same through the bare FileLogWriter (LogWriter::write called from inside a Display implementation).
+struct RecMsgW<'a> {
+    a: &'a dyn LogWriter,
+    chain: Vec<String>,
+    outer: String,
+    lvl: log::Level,
+}
+impl std::fmt::Display for RecMsgW<'_> {
+    fn fmt(&self, f: &mut std::fmt::Formatter<'_>) -> std::fmt::Result {
+        if let Some((first, rest)) = self.chain.split_first() {
+            let inner = RecMsgW { a: self.a, chain: rest.to_vec(), outer: first.clone(), lvl: self.lvl };
+            let mut now = DeferredNow::new();
+            let _ = self.a.write(
+                &mut now,
+                &log::Record::builder()
+                    .args(format_args!("{}", inner))
+                    .level(self.lvl)
+                    .target("m")
+                    .module_path(Some("m"))
+                    .build(),
+            );
+        }
+        f.write_str(&self.outer)
+    }
+}
+
 fn leak(s: &str) -> &'static str {
     Box::leak(s.to_string().into_boxed_str())
 }
@@ -462,7 +488,7 @@ pub fn run_scenario(sc: &Value, ex: &mut Exec) -> usize {
                     Some(v) => v.as_u64().unwrap_or(0) as usize,
                     None => 0,
                 };
-                let recursive = depth > 0 && run.logger.is_some();
+                let recursive = depth > 0 && (run.logger.is_some() || run.arc.is_some());
                 let ilen = st.get("ilen").and_then(|v| v.as_u64()).unwrap_or(12).max(9 + le as u64) as usize;
                 // the innermost record is written first: ids in the order of writing; chain = outermost nested first
                 let mut chain: Vec<String> = Vec::new();
@@ -516,11 +542,14 @@ pub fn run_scenario(sc: &Value, ex: &mut Exec) -> usize {
                             );
                         } else if let Some(a) = &run.arc {
                             let mut now = DeferredNow::new();
+                            let rm = RecMsgW { a: &**a, chain: chain.clone(), outer: msg.clone(), lvl };
+                            let plain_args = format_args!("{}", msg);
+                            let rec_args = format_args!("{}", rm);
                             let res = LogWriter::write(
                                 &**a,
                                 &mut now,
                                 &log::Record::builder()
-                                    .args(format_args!("{}", msg))
+                                    .args(if recursive { rec_args } else { plain_args })
                                     .level(lvl)
                                     .target("m")
                                     .module_path(Some("m"))
@@ -1111,6 +1140,12 @@ pub fn run_scenario(sc: &Value, ex: &mut Exec) -> usize {
                 if let Some(o) = iv.as_object_mut() {
                     o.remove("obs");
                     o.remove("hex");
+                }
+                if raw {
+                    // byte-exact comparison (C15): what the nested record contributes to the file
+                    iv["hex"] = json!(obs::hex(
+                        format!("{}{}", obs::message(iid, ilen, cfg.le().len()), cfg.le()).as_bytes()
+                    ));
                 }
                 emit(ex, iv);
             }
